@@ -216,7 +216,7 @@ CompressClauses(ln, st) ==
       L  == Len(a.dims)
       ok == ln.exc = ""
       pc == PromisedCentre(ln, L)
-      nothing == ln.cutoff0 /\ (ln.cap = 0 \/ ln.cap >= MaxOf(ln.ranks)) IN
+      nothing == NothingToTruncate(ln.method, ln.cap, ln.cutoff0, ln.ranks, a.bonds) IN
   << \* a method that documents that it needs a cap may reject max_bond=None; nothing else may raise
      <<"Returns", ok \/ (ln.cap = 0 /\ ln.method \in NeedsCap)>>,
      <<"BondCap", (ok /\ ln.cap > 0) => /\ ln.maxbond <= ln.cap
